@@ -33,6 +33,14 @@ def handle : List String → Option String
       let B := if which = "old" then runCodeOld stages else runCode stages
       pure (showM3 B.A ++ " | " ++ showV3s [B.b] ++ " | " ++ showV3s (pts.map B.apply) ++ " | "
         ++ showV3s (pts.map (applySeq stages)))) rest
+  | "ops" :: rest => run (do
+      -- ops n (S <stage> | R)* m pts : one long-lived AdaptiveBalance; prints accumulated A | b | applied
+      let ops ← P.list (do
+        let k ← P.tok
+        if k = "R" then pure (BalOp.reset : BalOp Rat) else (do let s ← pStage; pure (BalOp.stage s)))
+      let pts ← P.list pV3; P.done
+      let B := runOps ops
+      pure (showM3 B.A ++ " | " ++ showV3s [B.b] ++ " | " ++ showV3s (pts.map B.apply))) rest
   | "pipeline" :: rest => run (do
       -- pipeline <whitebalancing> <clip> <wb stage> <colour stage> R C (x y z)*(R*C) -> corrected pixels, row major
       let wbOn ← P.bool; let clip ← P.bool; let wb ← pStage; let col ← pStage
